@@ -129,16 +129,16 @@ Proof.
   - destruct IHe as (W1 & R1 & C1). split; [apply wf_map; apply wf_map; exact W1|].
     split; [cbn [fdiv_d dmul_f dpow re]; rewrite R1; change (npow (evalR e rho) nm1) with (Rpowf (evalR e rho) (-1));
             rewrite Rpowf_m1_all; cbn [nmul NumR]; unfold Rdiv; ring|].
-    intros u. unfold fdiv_d, dmul_f, vscale_l. rewrite coef_map by (cbn; ring). unfold dpow.
+    intros u. unfold fdiv_d, dmul_f, vscale_l. rewrite coef_map by (cbn; ring). rewrite dpow_unguard.
     rewrite coef_map by (cbn; ring). rewrite C1, R1. unfold pow_c1. rcbn. replace (- (1)) with (-1) by lra. ring.
   - destruct IHe as (W1 & R1 & C1). split; [apply wf_map; exact W1|]. split; [cbn; rewrite R1; reflexivity|].
     intros u. unfold dneg. rewrite coef_map by (cbn; ring). rewrite C1. reflexivity.
   - destruct IHe as (W1 & R1 & C1). split; [apply wf_map; exact W1|]. split; [cbn; rewrite R1; reflexivity|].
     intros u. unfold dneg_ref, vscale_r. rewrite coef_map by (cbn; ring). rewrite C1. rcbn; ring.
   - destruct IHe as (W1 & R1 & C1). split; [apply wf_map; exact W1|]. split; [cbn; rewrite R1; reflexivity|].
-    intros u. unfold dpow. rewrite coef_map by (cbn; ring). rewrite C1, R1. unfold pow_c1. rcbn. ring.
+    intros u. rewrite dpow_unguard. rewrite coef_map by (cbn; ring). rewrite C1, R1. unfold pow_c1. rcbn. ring.
   - destruct IHe as (W1 & R1 & C1). split; [apply wf_map; exact W1|]. split; [cbn; rewrite R1; reflexivity|].
-    intros u. unfold dpow_ref. rewrite coef_map by (cbn; ring). rewrite C1, R1. unfold pow_c1. rcbn. ring.
+    intros u. rewrite dpow_ref_unguard. rewrite coef_map by (cbn; ring). rewrite C1, R1. unfold pow_c1. rcbn. ring.
   - destruct IHe as (W1 & R1 & C1). split; [apply wf_map; exact W1|]. split; [cbn; rewrite R1; reflexivity|].
     intros u. unfold dexp, vscale_l. rewrite coef_map by (cbn; ring). rewrite C1, R1. reflexivity.
   - destruct IHe as (W1 & R1 & C1). split; [apply wf_map; exact W1|]. split; [cbn; rewrite R1; reflexivity|].
@@ -334,15 +334,24 @@ Lemma is_intR_pred p : is_intR p = true -> is_intR (p - 1) = true.
 Proof.
   intros I. apply is_intR_true in I. rewrite I. rewrite <- minus_IZR. apply is_intR_IZR.
 Qed.
-Lemma pow_dom_pred x p : pow_dom x p -> pow_dom x (p - 1).
-Proof. intros [H|[H I]]; [left; auto|right; split; auto using is_intR_pred]. Qed.
+Lemma pow_dom_int x k : x <> 0 -> pow_dom x (IZR k).
+Proof.
+  intros N. destruct (Rtotal_order 0 x) as [H|[H|H]]; [left; auto|congruence|].
+  right. left. split; auto. apply is_intR_IZR.
+Qed.
 Lemma alg_pow_c1 p X : p * ((p - 1) * X) = 2 * (/ 2 * p * (p - 1) * X).
 Proof. field. Qed.
-Lemma is_derive_pow_c1 x p : pow_dom x p -> is_derive (fun y => pow_c1 y p) x (2 * pow_c2 x p).
+(* needs the domain condition at exponent p - 1 (for base 0: p = 1, 2, 3, ...), or p = 0 (constant) *)
+Definition pow_dom2 (x p : R) : Prop := pow_dom x (p - 1) \/ p = 0.
+Lemma is_derive_pow_c1 x p : pow_dom2 x p -> is_derive (fun y => pow_c1 y p) x (2 * pow_c2 x p).
 Proof.
-  intros D. unfold pow_c1, pow_c2. evar_last.
-  - apply dR_scal. apply is_derive_Rpowf. apply pow_dom_pred. exact D.
-  - replace (p - 1 - 1) with (p - 2) by ring. apply alg_pow_c1.
+  intros [D|Z]; unfold pow_c1, pow_c2.
+  - evar_last.
+    + apply dR_scal. apply is_derive_Rpowf. exact D.
+    + replace (p - 1 - 1) with (p - 2) by ring. apply alg_pow_c1.
+  - subst p. apply dR_ext_loc with (f := fun _ => 0).
+    + apply filter_forall. intros y. ring.
+    + evar_last; [apply dR_const|ring].
 Qed.
 Lemma is_derive_Rphi x : is_derive Rphi x (2 * ncdf_c2 x).
 Proof.
@@ -367,6 +376,23 @@ Proof.
   - cbv beta. rewrite ?Rnicdf_ncdf. unfold ncdf_c2. field. lra.
 Qed.
 
+(* the twice-differentiable domain: as Dom, with the power rule also differentiable once more *)
+Fixpoint Dom2 (e : exprR) (rho : envR) : Prop :=
+  match e with
+  | Var _ | Cst _ => True
+  | Add a b | Sub a b | Mul a b => Dom2 a rho /\ Dom2 b rho
+  | AddF a _ | FAdd _ a | SubF a _ | FSub _ a | MulF a _ | FMul _ a | Neg a | NegRef a | Exp a | Ncdf a => Dom2 a rho
+  | Div a b => Dom2 a rho /\ Dom2 b rho /\ evalR b rho <> 0
+  | DivF a r => Dom2 a rho /\ r <> 0
+  | FDiv _ a => Dom2 a rho /\ evalR a rho <> 0
+  | Pow a p | PowRef a p => Dom2 a rho /\ pow_dom (evalR a rho) p /\ pow_dom2 (evalR a rho) p
+  | Log a => Dom2 a rho /\ 0 < evalR a rho
+  | Abs a => Dom2 a rho /\ evalR a rho <> 0
+  | Nicdf a => Dom2 a rho /\ exists x, Rncdf x = evalR a rho
+  end.
+Lemma Dom2_Dom (e : exprR) rho : Dom2 e rho -> Dom e rho.
+Proof. induction e; cbn [Dom Dom2]; tauto. Qed.
+
 Lemma L2_chain (f1 : R -> R) (c2 : R) (Fy Gy : R -> R) x gv h :
   is_derive Fy x gv -> is_derive Gy x (2 * h) -> is_derive f1 (Fy x) (2 * c2) ->
   is_derive (fun y => Gy y * f1 (Fy y)) x (2 * chainH (f1 (Fy x)) c2 h (Gy x) gv).
@@ -385,12 +411,12 @@ Proof.
   - unfold chainH. ring.
 Qed.
 
-Theorem L2 (sh : bool) (e : exprR) (rho : envR) u v : Dom e rho ->
+Theorem L2 (sh : bool) (e : exprR) (rho : envR) u v : Dom2 e rho ->
   is_derive (fun y => G e (upd rho v y) u) (rho v) (2 * Hh e rho u v).
 Proof.
   assert (HsF : forall e : exprR, evalR e (upd rho v (rho v)) = evalR e rho) by (intros; apply evalR_ext, upd_same).
   assert (HsG : forall (e : exprR) u, G e (upd rho v (rho v)) u = G e rho u) by (intros; apply G_ext, upd_same).
-  induction e; cbn [G Hh Dom]; intros HD.
+  induction e; cbn [G Hh Dom2]; intros HD.
   - (* Var *) evar_last; [apply dR_const|ring].
   - (* Cst *) evar_last; [apply dR_const|ring].
   - (* Add *) destruct HD. evar_last; [apply dR_plus; eauto|ring].
@@ -401,7 +427,7 @@ Proof.
   - (* FSub *) evar_last; [apply dR_opp; eauto|ring].
   - (* Mul *) destruct HD as [H1 H2]. evar_last.
     + apply dR_plus; apply dR_mult;
-        [apply IHe1; exact H1|apply (L1 sh); exact H2|apply IHe2; exact H2|apply (L1 sh); exact H1].
+        [apply IHe1; exact H1|apply (L1 sh); apply Dom2_Dom; exact H2|apply IHe2; exact H2|apply (L1 sh); apply Dom2_Dom; exact H1].
     + cbv beta. rewrite ?HsF, ?HsG. unfold mulH. field.
   - (* MulF *) evar_last; [apply dR_scal; eauto|ring].
   - (* FMul *) evar_last; [apply dR_scal; eauto|ring].
@@ -409,48 +435,48 @@ Proof.
     + apply dR_plus.
       * apply dR_mult; [apply IHe1; exact H1|].
         apply (dR_mult (fun _ => 1) (fun y => / evalR e2 (upd rho v y))); [apply dR_const|].
-        apply dR_inv; [apply (L1 sh); exact H2|rewrite HsF; exact H3].
-      * apply dR_mult; [|apply (L1 sh); exact H1].
+        apply dR_inv; [apply (L1 sh); apply Dom2_Dom; exact H2|rewrite HsF; exact H3].
+      * apply dR_mult; [|apply (L1 sh); apply Dom2_Dom; exact H1].
         apply dR_mult; [|apply IHe2; exact H2].
         apply (dR_mult (fun _ => -1) (fun y => / (evalR e2 (upd rho v y) * evalR e2 (upd rho v y)))); [apply dR_const|].
-        apply dR_inv; [apply dR_mult; apply (L1 sh); exact H2|rewrite HsF; apply Rmult_integral_contrapositive; auto].
+        apply dR_inv; [apply dR_mult; apply (L1 sh); apply Dom2_Dom; exact H2|rewrite HsF; apply Rmult_integral_contrapositive; auto].
     + cbv beta. rewrite ?HsF, ?HsG. unfold mulH, chainH, pow_c1, pow_c2.
       rewrite Rpowf_m1 by exact H3. rewrite (Rpowf_m2 _ H3). rewrite (Rpowf_m3 _ H3). field. exact H3.
   - (* DivF *) destruct HD as (H1 & H3). evar_last; [apply dR_scal; eauto|unfold Rdiv; ring].
   - (* FDiv *) destruct HD as (H1 & H3). evar_last.
     + apply dR_scal. apply (L2_chain (fun x => pow_c1 x (-1)) (pow_c2 (evalR e rho) (-1))
                              (fun y => evalR e (upd rho v y)) (fun y => G e (upd rho v y) u)).
-      * apply (L1 sh); exact H1.
+      * apply (L1 sh); apply Dom2_Dom; exact H1.
       * apply IHe; exact H1.
-      * rewrite HsF. apply is_derive_pow_c1. apply pow_dom_m1. exact H3.
+      * rewrite HsF. apply is_derive_pow_c1. left. replace (-1 - 1) with (IZR (-2)) by (cbn; lra). apply pow_dom_int. exact H3.
     + cbv beta. rewrite ?HsF, ?HsG. ring.
   - (* Neg *) evar_last; [apply dR_opp; eauto|ring].
   - (* NegRef *) evar_last; [apply dR_opp; eauto|ring].
-  - (* Pow *) destruct HD as (H1 & H3). evar_last.
+  - (* Pow *) destruct HD as (H1 & H3 & H4). evar_last.
     + apply (L2_chain (fun x => pow_c1 x p) (pow_c2 (evalR e rho) p)
                (fun y => evalR e (upd rho v y)) (fun y => G e (upd rho v y) u)).
-      * apply (L1 sh); exact H1.
+      * apply (L1 sh); apply Dom2_Dom; exact H1.
       * apply IHe; exact H1.
-      * rewrite HsF. apply is_derive_pow_c1. exact H3.
+      * rewrite HsF. apply is_derive_pow_c1. exact H4.
     + cbv beta. rewrite ?HsF, ?HsG. ring.
-  - (* PowRef *) destruct HD as (H1 & H3). evar_last.
+  - (* PowRef *) destruct HD as (H1 & H3 & H4). evar_last.
     + apply (L2_chain (fun x => pow_c1 x p) (pow_c2 (evalR e rho) p)
                (fun y => evalR e (upd rho v y)) (fun y => G e (upd rho v y) u)).
-      * apply (L1 sh); exact H1.
+      * apply (L1 sh); apply Dom2_Dom; exact H1.
       * apply IHe; exact H1.
-      * rewrite HsF. apply is_derive_pow_c1. exact H3.
+      * rewrite HsF. apply is_derive_pow_c1. exact H4.
     + cbv beta. rewrite ?HsF, ?HsG. ring.
   - (* Exp *) evar_last.
     + apply (L2_chain_l exp (/ 2 * exp (evalR e rho))
                (fun y => evalR e (upd rho v y)) (fun y => G e (upd rho v y) u)).
-      * apply (L1 sh); exact HD.
+      * apply (L1 sh); apply Dom2_Dom; exact HD.
       * apply IHe; exact HD.
       * rewrite HsF. evar_last; [apply is_derive_exp|field].
     + cbv beta. rewrite ?HsF, ?HsG. unfold chainH. ring.
   - (* Log *) destruct HD as (H1 & H3). evar_last.
     + apply (L2_chain_l (fun x => 1 / x) (- / 2 * (1 / evalR e rho * (1 / evalR e rho)))
                (fun y => evalR e (upd rho v y)) (fun y => G e (upd rho v y) u)).
-      * apply (L1 sh); exact H1.
+      * apply (L1 sh); apply Dom2_Dom; exact H1.
       * apply IHe; exact H1.
       * rewrite HsF. evar_last.
         -- apply (dR_mult (fun _ => 1) (fun x => / x)); [apply dR_const|]. apply dR_inv; [apply dR_id|lra].
@@ -459,19 +485,19 @@ Proof.
   - (* Ncdf *) evar_last.
     + apply (L2_chain_l Rphi (ncdf_c2 (evalR e rho))
                (fun y => evalR e (upd rho v y)) (fun y => G e (upd rho v y) u)).
-      * apply (L1 sh); exact HD.
+      * apply (L1 sh); apply Dom2_Dom; exact HD.
       * apply IHe; exact HD.
       * rewrite HsF. apply is_derive_Rphi.
     + cbv beta. rewrite ?HsF, ?HsG. unfold chainH. ring.
   - (* Nicdf *) destruct HD as (H1 & x0 & H3). evar_last.
     + apply (L2_chain_l nicdf_c1 (nicdf_c2 (evalR e rho))
                (fun y => evalR e (upd rho v y)) (fun y => G e (upd rho v y) u)).
-      * apply (L1 sh); exact H1.
+      * apply (L1 sh); apply Dom2_Dom; exact H1.
       * apply IHe; exact H1.
       * rewrite HsF, <- H3. apply is_derive_nicdf_c1.
     + cbv beta. rewrite ?HsF, ?HsG. unfold chainH. ring.
   - (* Abs *) destruct HD as [H1 H2].
-    pose proof (derive_continuous _ _ _ (L1 sh e rho v H1)) as Hc.
+    pose proof (derive_continuous _ _ _ (L1 sh e rho v (Dom2_Dom _ _ H1))) as Hc.
     destruct (Rlt_dec 0 (evalR e rho)) as [Hp|Hn].
     + apply dR_ext_loc with (f := fun y => G e (upd rho v y) u); [|auto].
       generalize (locally_pos _ _ Hc ltac:(cbv beta; rewrite HsF; auto)). apply filter_imp. intros y Hy.
@@ -493,7 +519,7 @@ Qed.
 Lemma hessian_symmetric sh (e : exprR) (rho : envR) u v :
   coef2 (evalDual2 sh e rho) u v = coef2 (evalDual2 sh e rho) v u.
 Proof. destruct (eval2_H sh e rho) as (_ & _ & _ & H). rewrite !H. apply Hh_sym. Qed.
-Lemma hessian_pointwise sh (e : exprR) (rho : envR) u v : Dom e rho ->
+Lemma hessian_pointwise sh (e : exprR) (rho : envR) u v : Dom2 e rho ->
   is_derive (fun y => coef (evalDual sh e (upd rho v y)) u) (rho v) (2 * coef2 (evalDual2 sh e rho) u v).
 Proof.
   intros D. destruct (eval2_H sh e rho) as (_ & _ & _ & H). rewrite H.
@@ -535,11 +561,19 @@ Proof.
               (fun z _ => Rncdf_continuity z)) as (z & _ & Ez).
   exists z. exact Ez.
 Qed.
+Lemma pow_dom_nat y n : pow_dom y (INR n).
+Proof.
+  destruct (Rtotal_order 0 y) as [H|[H|H]].
+  - left. exact H.
+  - right. right. split; [auto|]. exists n. auto.
+  - right. left. split; [exact H|]. rewrite INR_IZR. apply is_intR_IZR.
+Qed.
 Lemma locally_pow_dom (f : R -> R) x p : continuous f x -> pow_dom (f x) p -> locally x (fun y => pow_dom (f y) p).
 Proof.
-  intros C [P|[P I]].
+  intros C [P|[[P I]|[P [n Hp]]]].
   - generalize (locally_pos f x C P). apply filter_imp. intros y Hy. left. exact Hy.
-  - generalize (locally_neg f x C P). apply filter_imp. intros y Hy. right. split; assumption.
+  - generalize (locally_neg f x C P). apply filter_imp. intros y Hy. right. left. split; assumption.
+  - apply filter_forall. intros y. subst p. apply pow_dom_nat.
 Qed.
 
 Lemma evalR_continuous (sh : bool) (e : exprR) (rho : envR) v : Dom e rho ->
@@ -577,15 +611,56 @@ Proof.
     generalize (filter_and _ _ (IHe H1) L3). apply filter_imp. tauto.
 Qed.
 
+Lemma Dom2_locally (sh : bool) (e : exprR) (rho : envR) v : Dom2 e rho -> locally (rho v) (fun y => Dom2 e (upd rho v y)).
+Proof.
+  assert (HsF : forall e : exprR, evalR e (upd rho v (rho v)) = evalR e rho) by (intros; apply evalR_ext, upd_same).
+  assert (EC : forall e : exprR, Dom2 e rho -> continuous (fun y => evalR e (upd rho v y)) (rho v))
+    by (intros e0 D0; apply (evalR_continuous sh); apply Dom2_Dom; exact D0).
+  induction e; cbn [Dom2]; intros HD; try (apply filter_forall; intros; exact I); auto.
+  - destruct HD as [H1 H2]. generalize (filter_and _ _ (IHe1 H1) (IHe2 H2)). apply filter_imp. tauto.
+  - destruct HD as [H1 H2]. generalize (filter_and _ _ (IHe1 H1) (IHe2 H2)). apply filter_imp. tauto.
+  - destruct HD as [H1 H2]. generalize (filter_and _ _ (IHe1 H1) (IHe2 H2)). apply filter_imp. tauto.
+  - destruct HD as (H1 & H2 & H3).
+    pose proof (locally_neq0 _ _ (EC e2 H2) ltac:(cbv beta; rewrite HsF; exact H3)) as L3.
+    generalize (filter_and _ _ (filter_and _ _ (IHe1 H1) (IHe2 H2)) L3). apply filter_imp. tauto.
+  - destruct HD as (H1 & H3). generalize (IHe H1). apply filter_imp. tauto.
+  - destruct HD as (H1 & H3).
+    pose proof (locally_neq0 _ _ (EC e H1) ltac:(cbv beta; rewrite HsF; exact H3)) as L3.
+    generalize (filter_and _ _ (IHe H1) L3). apply filter_imp. tauto.
+  - destruct HD as (H1 & H3 & H4).
+    pose proof (locally_pow_dom _ _ p (EC e H1) ltac:(cbv beta; rewrite HsF; exact H3)) as L3.
+    assert (L4 : locally (rho v) (fun y => pow_dom2 (evalR e (upd rho v y)) p)).
+    { destruct H4 as [H4|H4]; [|apply filter_forall; intros y; right; exact H4].
+      generalize (locally_pow_dom _ _ (p - 1) (EC e H1) ltac:(cbv beta; rewrite HsF; exact H4)).
+      apply filter_imp. intros y Hy. left. exact Hy. }
+    generalize (filter_and _ _ (IHe H1) (filter_and _ _ L3 L4)). apply filter_imp. tauto.
+  - destruct HD as (H1 & H3 & H4).
+    pose proof (locally_pow_dom _ _ p (EC e H1) ltac:(cbv beta; rewrite HsF; exact H3)) as L3.
+    assert (L4 : locally (rho v) (fun y => pow_dom2 (evalR e (upd rho v y)) p)).
+    { destruct H4 as [H4|H4]; [|apply filter_forall; intros y; right; exact H4].
+      generalize (locally_pow_dom _ _ (p - 1) (EC e H1) ltac:(cbv beta; rewrite HsF; exact H4)).
+      apply filter_imp. intros y Hy. left. exact Hy. }
+    generalize (filter_and _ _ (IHe H1) (filter_and _ _ L3 L4)). apply filter_imp. tauto.
+  - destruct HD as (H1 & H3).
+    pose proof (locally_pos _ _ (EC e H1) ltac:(cbv beta; rewrite HsF; exact H3)) as L3.
+    generalize (filter_and _ _ (IHe H1) L3). apply filter_imp. tauto.
+  - destruct HD as (H1 & H3).
+    pose proof (locally_range _ _ (EC e H1) ltac:(cbv beta; rewrite HsF; exact H3)) as L3.
+    generalize (filter_and _ _ (IHe H1) L3). apply filter_imp. tauto.
+  - destruct HD as (H1 & H3).
+    pose proof (locally_neq0 _ _ (EC e H1) ltac:(cbv beta; rewrite HsF; exact H3)) as L3.
+    generalize (filter_and _ _ (IHe H1) L3). apply filter_imp. tauto.
+Qed.
+
 (* the Hessian read back IS the matrix of second partial derivatives (Coquelicot's total Derive) *)
-Theorem hessian_exact (sh : bool) (e : exprR) (rho : envR) u v : Dom e rho ->
+Theorem hessian_exact (sh : bool) (e : exprR) (rho : envR) u v : Dom2 e rho ->
   is_derive (fun y => Derive (fun x => evalR e (upd (upd rho v y) u x)) (upd rho v y u)) (rho v)
             (2 * coef2 (evalDual2 sh e rho) u v).
 Proof.
   intros D.
   apply dR_ext_loc with (f := fun y => coef (evalDual sh e (upd rho v y)) u).
-  - generalize (Dom_locally sh e rho v D). apply filter_imp. intros y Dy.
-    destruct (ad1_exact sh e (upd rho v y) Dy) as (_ & _ & Dv).
+  - generalize (Dom2_locally sh e rho v D). apply filter_imp. intros y Dy.
+    destruct (ad1_exact sh e (upd rho v y) (Dom2_Dom _ _ Dy)) as (_ & _ & Dv).
     symmetry. apply is_derive_unique. apply Dv.
   - apply hessian_pointwise. exact D.
 Qed.
